@@ -1,6 +1,8 @@
 """C02 -- regenerated source preserves the program's content token for token."""
 import random
 
+import re
+
 import common
 import gen
 import layout
@@ -35,6 +37,33 @@ def check_one(arg):
     if d:
         return ("tokens", d[0], d[1], d[2])
     return ("ok",)
+
+
+_WORD = re.compile(r"[A-Za-z_$][A-Za-z0-9_$]*|[0-9]+")
+
+
+def check_catalogue(arg):
+    """whatever parses: the regenerated text holds no internal placeholder and every word (name, keyword, digit string)
+    of the source -- compared on the texts with everything but letters, digits, '_' and '$' removed, so that keyword
+    spacing and case do not matter"""
+    std, src = arg
+    import fp
+    o = fp.parse(src, std=std, ignore_comments=True)
+    if o.kind != "tree":
+        return []
+    out = str(o.tree)
+    rep = dict(std=std, source=src, regenerated=out, catalogue=True)
+    fails = []
+    if "F2PY_" in out.upper() and "F2PY_" not in src.upper():
+        fails.append(("placeholder_in_regenerated_text", "an internal placeholder reached the regenerated text: %r"
+                      % [l for l in out.split("\n") if "F2PY_" in l.upper()][:2], rep))
+    squeezed = re.sub(r"[^a-z0-9_$]", "", out.lower())
+    code = re.sub(r"'[^']*'|\"[^\"]*\"", " ", src)
+    code = re.sub(r"(?m)!.*$", " ", code)          # comments are dropped by this parse
+    lost = [w for w in _WORD.findall(code) if w.lower() not in squeezed]
+    if lost:
+        fails.append(("word_lost_in_regenerated_text", "words of the source missing from the regenerated text: %r" % lost[:4], rep))
+    return fails
 
 
 def run(ctx):
@@ -108,7 +137,13 @@ def run(ctx):
     if osf.kind == "tree" and "bind(c)result(r)" not in str(osf.tree).lower().replace(" ", ""):
         failures.append(("function_suffix_order_normalised", "recorded finding still present: %r" % str(osf.tree).split("\n")[0],
                          dict(std="f2003", source=SUFFIX_SRC)))
-    e2e = dict(cases=len(jobs) + 4, distinct=len(set(j[1] for j in jobs)), programs=nprog, failures=failures,
+    import catalogue
+    cat = catalogue.sources()
+    cj = [(("f2003", "f2008")[k % 2], src) for k, src in enumerate(cat if not ctx.quick else cat[ctx.seed % 2::2])]
+    for job, (st, r) in zip(cj, pool.pmap(check_catalogue, cj, chunksize=16)):
+        failures += r if st == "ok" else [("harness_error", r[:300], dict(job=list(job)))]
+    e2e = dict(cases=len(jobs) + 4 + len(cj), distinct=len(set(j[1] for j in jobs)) + len(cj), programs=nprog, failures=failures,
+               catalogue_programs=len(cj),
                rule="generated valid programs x free-form layouts (continuation at token boundaries and inside "
                     "literals, leading '&' or not, blank/comment lines, trailing comments, ';' joins, keyword case), "
                     "comments dropped and kept: normalise(tokens(str(parse(layout)))) == normalise(tokens(canonical)) "
@@ -124,6 +159,8 @@ def run(ctx):
 
 
 def replay(ctx, data):
+    if data.get("catalogue"):
+        return not check_catalogue((data.get("std", "f2003"), data["source"]))
     r = check_one((data.get("std", "f2003"), data["source"], data.get("canonical", data["source"]),
                    data.get("keep_comments", False)))
     return r[0] == "ok"
